@@ -81,6 +81,20 @@ def run(ctx):
             read.add(n.slice.value)
     if not required:
         raise AnalysisError("C15-R1: key list of is_compressed not found")
+    # presence, not truthiness: BN_RPX1/2 are legitimately 0 when an axis is
+    # a multiple of the factor
+    tests = [c for c in ast.walk(isc.node) if isinstance(c, ast.Compare) and
+             len(c.ops) == 1 and isinstance(c.ops[0], ast.In)]
+    truthy = [c for c in ast.walk(isc.node) if isinstance(c, ast.Call) and
+              isinstance(c.func, ast.Attribute) and c.func.attr == "get"]
+    subs = [c for c in ast.walk(isc.node) if isinstance(c, ast.Subscript)
+            and norm(c.value) == isc.params[0]]
+    ctx.check("C15-R1", isc, "keys tested for presence (`in`)",
+              len(tests) >= 1 and not truthy and not subs,
+              "is_compressed must test that the keys are PRESENT; testing "
+              "their truth value fails for the valid residual 0 (an axis "
+              "that is an exact multiple of the factor), so such files are "
+              "never expanded", node=isc.node)
     ctx.check("C15-R1", comp, "written %s vs required %s" %
               (sorted(written), sorted(required)), written == required,
               "compress writes %s but is_compressed requires %s" %
